@@ -92,6 +92,7 @@ pub fn gen_rfc2822(r: &mut Rng) -> String {
     if r.chance(1, 12) { return (*r.pick(&["garbage", "", "Tue, 1 Jul 2003", "10:52:37 +0200", "Tue, 1 Jul 2003 10:52:37", "1 Jul 2003 10:52:37 +0200 trailing", "32 Jan 2003 10:52:37 +0000", "Mon, 1 Jul 2003 10:52:37 +0200"])).to_string(); }
     // the last day chrono can represent, at an hour where a zone offset decides whether the local time still exists
     if r.chance(1, 12) { return format!("31 Dec 262142 {:02}:{:02}:{:02} {}", 8 + r.below(16), r.below(60), r.below(60), r.pick(&["+0000", "GMT", "-0100", "-0600", "-1200", "+0100", "-2359", "+1400"])); }
+    if let Some((y, m, d)) = dst_day(r) { return format!("{} {} {} {:02}:{:02}:00 +0000", d, MON[(m - 1) as usize], y, r.below(5), *r.pick(&[0u64, 30, 59])); }
     let dow = if r.chance(1, 2) { format!("{}, ", r.pick(&["Mon", "Tue", "Wed", "Thu", "Fri", "Sat", "Sun", "mon", "TUE"])) } else { String::new() };
     let day = match r.below(6) { 0 => *r.pick(&[0u64, 29, 30, 31, 32, 1]), _ => 1 + r.below(28) };
     let mon = *r.pick(&["Jan", "Feb", "Mar", "Apr", "May", "Jun", "Jul", "Aug", "Sep", "Oct", "Nov", "Dec", "jan", "DEC", "Foo"]);
@@ -107,7 +108,21 @@ pub fn gen_rfc2822(r: &mut Rng) -> String {
     t
 }
 /// RFC 3339 date-time texts (same idea): separators T/t/space, fractions of 0-12 digits, second 60, offsets incl. Z/z and limits
+/// UTC days on which the EU (last Sunday of March / October, 01:00 UTC) or the US (second Sunday of March, first of November) change clocks
+const DST_DAYS: &[(u64, u64, u64)] = &[(2023, 3, 26), (2023, 10, 29), (2024, 3, 31), (2024, 10, 27), (2025, 3, 30), (2025, 10, 26), (2024, 3, 10), (2024, 11, 3), (2025, 3, 9), (2025, 11, 2)];
+thread_local! { static DST_BURST: std::cell::Cell<(usize, u32)> = const { std::cell::Cell::new((0, 0)) }; }
+/// transition days come in BURSTS of consecutive calls (both RFC generators share the burst), so that several instants of one
+/// day, before and after the switch, are converted back to back — the history a per-day cache of the zone offset would need
+fn dst_day(r: &mut Rng) -> Option<(u64, u64, u64)> {
+    DST_BURST.with(|b| { let (i, left) = b.get();
+        if left > 0 { b.set((i, left - 1)); if r.chance(4, 5) { return Some(DST_DAYS[i]); } return None; }
+        if r.chance(1, 8) { let i = r.usize(DST_DAYS.len()); b.set((i, 6)); return Some(DST_DAYS[i]); }
+        None })
+}
+const MON: [&str; 12] = ["Jan", "Feb", "Mar", "Apr", "May", "Jun", "Jul", "Aug", "Sep", "Oct", "Nov", "Dec"];
 pub fn gen_rfc3339(r: &mut Rng) -> String {
+    // instants on both sides of a daylight-saving switch, several per day (what an offset cache keyed by day would confuse)
+    if let Some((y, m, d)) = dst_day(r) { return format!("{:04}-{:02}-{:02}T{:02}:{:02}:00Z", y, m, d, r.below(5), *r.pick(&[0u64, 30, 59])); }
     if r.chance(1, 12) { return (*r.pick(&["garbage", "", "2024-02-29", "2024-02-29T00:00:00", "24-02-29T00:00:00Z", "2024-02-29T00:00:00Z trailing", "2024-02-30T00:00:00Z", "2024-02-29T00:00Z", "+12024-02-29T00:00:00Z"])).to_string(); }
     let year = match r.below(4) { 0 => *r.pick(&[0u64, 1, 1969, 1970, 9999, 1600, 2000, 2100]), _ => 1900 + r.below(200) };
     let (mo, d) = (if r.chance(1, 15) { *r.pick(&[0u64, 13]) } else { 1 + r.below(12) }, match r.below(6) { 0 => *r.pick(&[0u64, 29, 30, 31, 32]), _ => 1 + r.below(28) });
@@ -140,6 +155,12 @@ pub fn gen_args(r: &mut Rng, name: &str) -> Vec<V> {
         "chr" => vec![num(match r.below(4) { 0 => r.below(300) as f64, 1 => (r.below(1300) as f64) / 10.0 - 1.0, 2 => *r.pick(&[0.0, 127.0, 127.5, 128.0, -1.0, 65.0, 255.0, 126.999]), _ => gen_num(r) })],
         "ord" => vec![s(&match r.below(4) { 0 => char::from_u32(r.below(300) as u32).unwrap_or('a').to_string(), 1 => r.pick(NEEDLES).to_string(), _ => char::from_u32(r.below(0x11000) as u32).unwrap_or('b').to_string() })],
         "lowercase" | "uppercase" | "trim" | "trim_left" | "trim_right" => vec![s(*r.pick(HAYS))],
+        // pairs related by case mapping, over characters whose mapping changes the UTF-8 length or the character count
+        // (Kelvin, Angstrom, Ohm signs, Ⱥ Ⱦ, ẞ, İ, ŉ, ǰ, ΐ, ﬁ, final sigma) as well as ordinary ones
+        "same_text" if r.chance(2, 3) => { let n = 1 + r.below(5);
+            let a: String = (0..n).map(|_| *r.pick(&['a', 'B', 'k', '\u{212A}', '\u{212B}', 'å', '\u{2126}', 'ω', 'Ⱥ', 'ⱥ', 'Ⱦ', 'ẞ', 'ß', 'İ', 'i', 'ı', 'I', 'ŉ', 'ǰ', 'ΐ', 'ﬁ', 'Σ', 'σ', 'ς', 'Ä', 'ä', 'ǅ', 'ǆ', ' ', '1', 'é', 'Ω'])).collect();
+            let b = match r.below(5) { 0 => a.to_lowercase(), 1 => a.to_uppercase(), 2 => a.clone(), 3 => a.chars().map(|c| if c.is_lowercase() { c.to_uppercase().collect::<String>() } else { c.to_lowercase().collect() }).collect(), _ => a.to_lowercase().to_uppercase() };
+            if r.chance(1, 2) { vec![s(&a), s(&b)] } else { vec![s(&b), s(&a)] } }
         "same_text" => vec![s(*r.pick(&["abc", "ABC", "aBc", "ÄÖ", "äö", "straße", "STRASSE", "", "x"])), s(*r.pick(&["abc", "ABC", "Abc", "äÖ", "äö", "strasse", "", "X"]))],
         "split" => { let h = s(*r.pick(HAYS)); let n = gen_needle(r, &h); vec![h, n] }
         "split_csv" => { let h = s(*r.pick(HAYS)); if r.chance(1, 2) { vec![h] } else { vec![h, s(*r.pick(&[";", ",", "", "ab", "ä", "\"", " "]))] } }
